@@ -174,6 +174,49 @@ def structured_cases():
     yield h([g("a"), g("b"), g("c"), mk(0, dt=0), mk(1, dt=1), mk(2, dt=999_999), nd(0, mu=2, dt=0), nd(0, mu=3, dt=0), nd(1, mu=1, dt=0), nd(1, mu=2, dt=0)])
 
 
+def long_history_cases(rng, quick=True):
+    """More later uploads to one terminal than any default (1024 images / 20 MiB): thresholds above 1024 must still be compared
+    with the TRUE number of other images and bytes.  1275 (thorough: 2295) ids of the 16-bit space are pre-filled by SQL, image A is
+    uploaded first, then every other id once (`marks`: real mark_uploaded calls), then the question is asked around every boundary."""
+    S8 = [8, False]
+    hi = [1, 6] if quick else [1, 10]
+    n = (hi[1] - hi[0]) * 255
+    z = rng.choice([1, 1000, 20000])
+    for term2 in (False, True):
+        ops = [{"op": "get", "sp": S8, "su": [1, 4], "d": "A", "dt": 1},
+               {"op": "get", "sp": S8, "su": [1, 4], "d": "B", "dt": 1},
+               {"op": "mark", "id": {"ref": 0}, "term": "t1", "size": z, "time": None, "dt": 1},
+               {"op": "mark", "id": {"ref": 0}, "term": "t2", "size": z, "time": None, "dt": 1},
+               {"op": "bulk", "sp": [8, True], "su": [hi[0], hi[1]], "fill": 1.0, "tie": False, "dt": 1},
+               {"op": "marks", "ids": {"hi": hi, "lo": [1, 256]}, "term": "t1", "size": z, "step": rng.choice([1, 7]), "dt": 1}]
+        if term2:
+            # part of the traffic goes to another terminal of the session as well
+            ops.append({"op": "marks", "ids": {"hi": [hi[0], hi[0] + 1], "lo": [1, 200]}, "term": "t2", "size": z, "step": 1, "dt": 1})
+            ops.append({"op": "mark", "id": {"ref": 1}, "term": "t1", "size": z, "time": None, "dt": 1})
+        others = n + (1 if term2 else 0)
+        big = 10**13
+        for term, k in (("t1", others), ("t2", 199 if term2 else 0)):
+            mus = sorted({1, 1023, 1024, 1025, 1026, 1100, k - 1, k, k + 1, k + 2, 2 * k + 5, 5000} - {0, -1})
+            for mu in mus:
+                ops.append({"op": "needs", "id": {"ref": 0}, "term": term, "mu": mu, "mb": big, "mt": big, "dt": 0})
+            for mb in sorted({z * 1025, z * 1026, z * 1100, z * k, z * (k + 1) - 1, z * (k + 1), z * (k + 1) + 1, z * 2 * (k + 1), 20 * 2**20}):
+                ops.append({"op": "needs", "id": {"ref": 0}, "term": term, "mu": 10**6, "mb": mb, "mt": big, "dt": 0})
+            ops.append({"op": "upinfo", "id": {"ref": 0}, "term": term, "dt": 0})
+        ops.append({"op": "cleanup_uploads", "keep": 1350 if term2 else rng.choice([1100, 1200]), "dt": 1})
+        # survivors of the clean-up: the pre-filled id that has exactly k later uploads on t1
+        ids = [(h << 24) | l for h in range(*hi) for l in range(1, 256)]
+        for k in (1050, 1026):
+            i = ids[n - 1 - k]
+            kk = k + (1 if term2 else 0)
+            for mu in (1024, kk - 1, kk, kk + 1, kk + 2, 1100):
+                ops.append({"op": "needs", "id": i, "term": "t1", "mu": mu, "mb": big, "mt": big, "dt": 0})
+            ops.append({"op": "needs", "id": i, "term": "t1", "mu": 10**6, "mb": z * (kk + 1) - 1, "mt": big, "dt": 0})
+            ops.append({"op": "needs", "id": i, "term": "t1", "mu": 10**6, "mb": z * (kk + 1), "mt": big, "dt": 0})
+        ops.append({"op": "needs", "id": {"ref": 0}, "term": "t1", "mu": 10**6, "mb": big, "mt": big, "dt": 0})
+        yield {"max_ids": 10**6, "seed": rng.randrange(1 << 30), "start": dbutil.T0, "profile": "long-history",
+               "ops": [dict(o, n=k) for k, o in enumerate(ops)]}
+
+
 def check_case(ctx: Ctx, case: dict):
     if case.get("k") == "terminal-switch":
         # the "that terminal" clause through the high-level path (TupimageTerminal.upload, terminal re-detection)
@@ -204,7 +247,8 @@ def cases(ctx: Ctx):
     rng = ctx.rng
     yield from structured_cases()
     from . import termid
-    yield from termid.cases(rng, 30 if ctx.quick else 300)
+    yield from termid.cases(rng, 36 if ctx.quick else 300)
+    yield from long_history_cases(rng, ctx.quick)
     while True:
         r = rng.random()
         ln = rng.choice([3, 6, 10, 20, 40, 80, 150, 400 if ctx.quick else 1500])
@@ -215,7 +259,9 @@ def run(ctx: Ctx):
     ctx.rule = ("cases = histories of get/set/del/cleanup interleaved with mark_uploaded(size, time), cleanup_uploads(n), "
                 "needs_uploading / get_upload_info with thresholds from {0,1,2,3,1024} x {0..6, 999..1001, size-1..size+1, 20MiB-1..+1} x "
                 "{0, 1us, 1s, 1h}; 1-4 terminals; clock advance per op in {0, 1us, ~1s, 1h, 1h+1us} (+ negative in K-only histories); "
-                "ids recycled through tiny subspaces. distinct = canonical JSON; non-trivial = at least one needs_uploading after a mark")
+                "ids recycled through tiny subspaces; long histories (1275+ later uploads to one terminal, thresholds around 1024, the true count "
+                "and above); terminal-identity scenarios through the real upload() (WINDOWID switches, tmux clients behind a fake tmux, "
+                "re-upload thresholds 0..3 through keywords / config_overrides). distinct = canonical JSON; non-trivial = at least one needs_uploading after a mark")
     run_corpus(ctx, PROP, check_case)
     budget = ctx.budget_s * (0.72 if ctx.quick else 0.85)
     for c in cases(ctx):
